@@ -350,7 +350,8 @@ theorem sensitive_writeField (A : Nat) (e : Encoder) (d : Decoder) (f : Field)
     intro h0; rw [h0] at hlen; simp at hlen
   have hb : (e.writeField f).2 = (e.writeRepr f).2 := by
     unfold Encoder.writeField; rw [hflush]; rfl
-  refine ⟨{ toDecCore := { d2 with firstField := false }, saveBuf := [] }, ?_, hdyn,
+  refine ⟨{ toDecCore := Hpack.afterRepr (e.writeRepr f).2 d2, saveBuf := [] }, ?_,
+    by show (Hpack.afterRepr (e.writeRepr f).2 d2).dyn = d.dyn; rw [afterRepr_dyn]; exact hdyn,
     sensitive_encoder_table_unchanged e f hsens⟩
   rw [write_eq d _ hne, hsave, List.nil_append, hb, loopG_step true _ d2 _ [] (some f) [] hp hlen, loopG_nil]
   simp [finishWrite, optToList]
